@@ -252,6 +252,9 @@ Proof.
   - inversion H; subst. split; reflexivity.
   - inversion H; subst. split; reflexivity.
   - inversion H; subst. split; reflexivity.
+  - match type of H with (let '(_, _) := ?X in _) = _ => destruct X as [w c] end.
+    inversion H; subst. cbn [set_obj heap vecs]. split; [|reflexivity].
+    eapply map_upd_same; [exact E|reflexivity].
   - inversion H; subst. split; reflexivity.
   - destruct (obj_next k st inner) as [[w st1]|] eqn:E1; [|discriminate]. inversion H; subst. eapply IH; eauto.
   - destruct (obj_next k st inner) as [[w st1]|] eqn:E1; [|discriminate].
